@@ -183,6 +183,7 @@ func emptyOrErr() Expect { return Expect{Err: 2, Val: "[]"} }
 // impl is the implementation's result: where the statement leaves a choice (SPop's member, an
 // out-of-range list bound reported as error or clamped) the model follows it.
 func (s *State) Eval(c Call, impl Res) Expect {
+	c = c.Dec()
 	switch c.F {
 	case "Put", "PutTS":
 		if c.K == "" {
